@@ -16,10 +16,10 @@ from . import er7mc
 
 EC = [124, 94, 38, 126, 92, 0]
 POOL = {
-    "ST": ["a", "a b", "x\\F\\y", "\\E\\", "O'Neil-1.5", "é", "\\X0D\\", "l1\\.br\\l2", "APT #12", "#"], "TX": ["t x", "\\T\\", "n#2"],
+    "ST": ["a", "a b", "x\\F\\y", "\\E\\", "O'Neil-1.5", "é", "\\X0D\\", "l1\\.br\\l2", "APT #12", "#", "a\\L\\b"], "TX": ["t x", "\\T\\", "n#2"],
     "FT": ["f\\.br\\g", "h", "#1"],
-    "ID": ["Y", "AB"], "IS": ["M", "X1"], "DT": ["20200229", "2020", "202012", "not a date"], "TM": ["1201", "120000.1234+0100", "2359"],
-    "DTM": ["202001011200", "20200101120000.12-0500", "2020"], "NM": ["12.5", "0", "-3", "100", "0.0000001"], "SI": ["7", "0", "1234"],
+    "ID": ["Y", "AB"], "IS": ["M", "X1"], "DT": ["20200229", "2020", "202012", "not a date"], "TM": ["1201", "120000.1234+0100", "2359", "120000.12345"],
+    "DTM": ["202001011200", "20200101120000.12-0500", "2020", "20200101120000.123456-0500"], "NM": ["12.5", "0", "-3", "100", "0.0000001"], "SI": ["7", "0", "1234"],
     "GTS": ["g"], "SNM": ["s"], "WD": ["w"], "TN": ["(555)555-1234"], "varies": ["v", "v w"],
 }
 
@@ -147,10 +147,22 @@ def full_line(v, seg, rnd, dense):
     return "|".join([seg] + fields).rstrip("|")
 
 
+def _noise(v):
+    """something of the OTHER escaping family is encoded first in this process (a pre-2.7 text before 2.7+ work and the other
+    way round): nothing an earlier call did may matter"""
+    other = "2.5" if v >= "2.7" else "2.7"
+    try:
+        T.lib(other).BASE_DATATYPES["ST"]("x\\F\\y\\L\\z|w").to_er7()
+        T.lib(other).BASE_DATATYPES["FT"]("p\\.br\\q").to_er7()
+    except Exception:
+        pass
+
+
 def _chunk(args):
     import_hl7apy()
     from hl7apy.parser import parse_segment, parse_message, parse_field, parse_component
     v, segs, adocs, seed, quick = args
+    _noise(v)
     rnd = random.Random("%s-%s-c01" % (seed, v))
     out = []
     typ = "ADT^A01" if v < "2.3.1" else "ADT^A01^ADT_A01"
